@@ -6,7 +6,7 @@ from vlib.sel import sel, concrete
 import formulas
 from formulas.errors import FormulaError
 
-V = ['1', '"a"', 'A1', '#REF!', '+', '-', '*', '%', '^', '&', '=', ' ', ':', '(', ')', ',', 'SUM(', '{', '}', ';']
+V = ['1', '"a"', 'A1', '#REF!', '+', '-', '*', '%', '^', '&', '=', ' ', ':', '(', ')', ',', 'SUM(', '{', '}', ';', '\t', '\n']
 NV = len(V)
 PREFIX = __PREFIX__        # indices of the leading tokens fixed in this copy
 OPERANDS = (0, 1, 2, 3)
@@ -22,12 +22,12 @@ def _outcome(text):
     try:
         r = P.ast(text)
     except FormulaError:
-        return 'rejected'
+        return ('rejected',)
     except RecursionError:
-        return 'RecursionError'
+        return ('RecursionError',)
     except Exception as e:
-        return type(e).__name__
-    return 'ok' if isinstance(r, tuple) and len(r) == 2 else 'bad return'
+        return (type(e).__name__,)
+    return ('ok', r[1][-1].get_expr) if isinstance(r, tuple) and len(r) == 2 else ('bad return',)
 
 
 def must_reject(seq):
@@ -51,8 +51,10 @@ def must_reject(seq):
         if a in OPERANDS and b in OPERANDS and (a in (1, 3) or b in (1, 3)) and (a, b) != (1, 1):
             return True                               # two adjacent operands (text / error literal cannot fuse;
             #                                           "a""a" is ONE text with an escaped quote)
-        if V[a] == '%' and (b in OPERANDS or V[b] in ('(', 'SUM(', '{')):
-            return True                               # an operand directly after a postfix %
+        if V[a] in ('%', ')', '}') and (b in OPERANDS or V[b] in ('(', 'SUM(', '{')):
+            return True                               # a value directly after a postfix % or a closing bracket
+        if a in OPERANDS and V[b] in ('(', 'SUM(', '{') and a in (1, 3):
+            return True                               # an opening bracket / call directly after text or an error literal
     if V[seq[-1]] in ('+', '-', '*', '^', '&', '='):
         return True                                   # operator without right operand
     if V[seq[0]] in ('*', '^', '&', '=', '%'):
@@ -60,12 +62,20 @@ def must_reject(seq):
     return False
 
 
+SPACE = V.index(' ')
+
+
 def check(seq):
     text = '=' + ''.join(V[i] for i in seq)
     o = outcome(text)
-    if o not in ('ok', 'rejected'):
+    if o[0] not in ('ok', 'rejected'):
         return False                                  # a foreign exception escaped
-    return o == 'rejected' or not must_reject(seq)
+    if any(V[i] in ('\t', '\n') for i in seq):
+        # a tab or a line break is whitespace: same reading as with a blank in its place
+        seq = [SPACE if V[i] in ('\t', '\n') else i for i in seq]
+        if outcome('=' + ''.join(V[i] for i in seq)) != o:
+            return False
+    return o[0] == 'rejected' or not must_reject(seq)
 
 
 def soup1_ok(a0: bool, a1: bool, a2: bool, a3: bool, a4: bool) -> bool:
@@ -118,7 +128,7 @@ def edit_ok(f: int, k0: bool, k1: bool, k2: bool, k3: bool, p0: bool, p1: bool, 
             return True
         seq = base[:pos] + [tok] + base[pos + 1:]
     if not seq:
-        return outcome('=') == 'rejected'
+        return outcome('=')[0] == 'rejected'
     return check(seq)
 
 
@@ -128,4 +138,4 @@ def valid_ok(f: int) -> bool:
     post: _
     """
     # the unedited formulas are accepted (the mutation test is not vacuous)
-    return outcome('=' + ''.join(V[i] for i in VALID[f])) == 'ok'
+    return outcome('=' + ''.join(V[i] for i in VALID[f]))[0] == 'ok'
